@@ -218,6 +218,45 @@ def trees_task(ctx, chunk):
     hyp_search(ctx, "valid-trees", treegen.valid_spec(elements=elements), body, per * len(elements), shard=shard)
 
 
+def tables_after_use(ctx):
+    """the tables are consulted by every validation; using the library (also on unknown, qualified and odd names) must
+    leave them exactly as shipped: re-check names / resolution after exercising it in this process"""
+    import copy
+    import json as _json
+    before_map = dict(R.node_mappings)
+    before_rules = _json.dumps(R.rules_dict, sort_keys=True)
+    from vf import build as _b
+    _b.warmup()
+    odd = ["zzUnknown", "eml:eml", "stmml:unitList", "xsi:type", "p:q:r", ":", "a:", ":b", "title ", "Title", ""]
+    for name in odd:
+        Node.store.clear()
+        n = Node("methodStep")
+        n.add_child(Node("description", content="d"))
+        n.add_child(Node(name))
+        for fn in (lambda: validate.tree(n, []), lambda: validate.tree(n), lambda: validate.prune(n),
+                   lambda: R.get_rule_name(name), lambda: R.get_rule(name), lambda: validate.node(Node(name), [])):
+            try:
+                fn()
+            except Exception:  # noqa
+                pass
+    Node.store.clear()
+    ctx.evaluations += len(odd) * 6
+    case = {"after_use": True}
+    if dict(R.node_mappings) != before_map:
+        added = sorted(set(R.node_mappings) - set(before_map))[:5]
+        ctx.fail("tables-change-with-use", case, f"the element map changed while the library was used: new entries {added}, "
+                 f"{sum(1 for k in before_map if R.node_mappings.get(k) != before_map[k])} re-bound")
+    if _json.dumps(R.rules_dict, sort_keys=True) != before_rules:
+        ctx.fail("tables-change-with-use", case, "rules table changed while the library was used")
+    if sorted(R.node_names()) != sorted(before_map):
+        ctx.fail("tables-change-with-use", case, "node_names() no longer equals the shipped element names after use")
+    for e, rn in R.node_mappings.items():
+        if rn not in R.rules_dict:
+            ctx.fail("element-rule-missing-after-use", case, f"after use, {e!r} maps to {rn!r} which is not a rule")
+            break
+    ctx.engine("tables-after-use", odd_names=len(odd))
+
+
 def run(ctx):
     tables_task(ctx, None)
     T = treegen.tables()
@@ -225,10 +264,33 @@ def run(ctx):
     per = 5 if ctx.quick else 200
     chunks = [(i, els[i::16], per) for i in range(16) if els[i::16]]
     ctx.pmap(trees_task, chunks)
+    after_use_in_child(ctx)
+
+
+def after_use_task(ctx, _):
+    tables_after_use(ctx)
+
+
+def after_use_in_child(ctx):
+    """runs in a forked child so that the coordinating process never mutates library state itself"""
+    import multiprocessing
+    from vf.runner import _worker
+    mp = multiprocessing.get_context("fork")
+    with mp.Pool(1) as pool:
+        res = pool.apply(_worker, (("props.c10", "after_use_task", ctx.prop, ctx.tier, ctx.seed, tuple(ctx.known_buckets), 0),))
+    if "error" in res:
+        from vf.runner import HarnessError
+        raise HarnessError(res["error"])
+    ctx.merge(res)
 
 
 def replay(case):
     Node.store.clear()
+    if case.get("after_use"):
+        from vf.runner import Ctx
+        c = Ctx(ID, "quick", 1)
+        tables_after_use(c)
+        return "; ".join(f["message"] for f in c.failures.values()) or None
     try:
         if "closure" in case:
             rn, c = case["closure"]
